@@ -6,6 +6,8 @@ import FastorModel.Props.C02
 import FastorModel.Props.C03
 import FastorModel.Props.C05
 import FastorModel.Props.C06
+import FastorModel.Props.C14
+import FastorModel.Model.Inverse
 import FastorModel.Props.C17
 /-
 # C07 — No operation touches memory outside its operands, for any shape or alignment
@@ -744,6 +746,25 @@ theorem small_kernels_footprint :
   refine ⟨(exactly_iff _ _).1 ?_, (exactly_iff _ _).1 ?_, (exactly_iff _ _).1 ?_, ?_, (exactly_iff _ _).1 ?_,
     (exactly_iff _ _).1 ?_, (exactly_iff _ _).1 ?_, (exactly_iff _ _).1 ?_, (exactly_iff _ _).1 ?_⟩ <;> decide
 
+
+/-- the whole-vector kernels (2x2, 4x4) and the double 3x3 transpose in its three widths: exactly their operands -/
+theorem whole_vector_kernels_footprint :
+    (∀ vw, vw = 2 ∨ vw = 4 ∨ vw = 8 → (∀ p, p ∈ offsets (transpose33d vw) 0 false ↔ p < 9) ∧
+      (∀ p, p ∈ offsets (transpose33d vw) 2 true ↔ p < 9)) ∧
+    (∀ p, p ∈ offsets unary4f 0 false ↔ p < 4) ∧ (∀ p, p ∈ offsets unary4f 2 true ↔ p < 4) ∧
+    (∀ p, p ∈ offsets unary4d 0 false ↔ p < 4) ∧ (∀ p, p ∈ offsets unary4d 2 true ↔ p < 4) ∧
+    (∀ b, (∀ p, p ∈ offsets (transpose44f b) 0 false ↔ p < 16) ∧ (∀ p, p ∈ offsets (transpose44f b) 2 true ↔ p < 16)) ∧
+    (∀ p, p ∈ offsets matmul222f 0 false ↔ p < 4) ∧ (∀ p, p ∈ offsets matmul222f 1 false ↔ p < 4) ∧
+    (∀ p, p ∈ offsets matmul222f 2 true ↔ p < 4) ∧
+    (∀ p, p ∈ offsets matmul444f 0 false ↔ p < 16) ∧ (∀ p, p ∈ offsets matmul444f 1 false ↔ p < 16) ∧
+    (∀ p, p ∈ offsets matmul444f 2 true ↔ p < 16) := by
+  refine ⟨?_, (exactly_iff _ _).1 (by decide), (exactly_iff _ _).1 (by decide), (exactly_iff _ _).1 (by decide),
+    (exactly_iff _ _).1 (by decide), ?_, (exactly_iff _ _).1 (by decide), (exactly_iff _ _).1 (by decide),
+    (exactly_iff _ _).1 (by decide), (exactly_iff _ _).1 (by decide), (exactly_iff _ _).1 (by decide),
+    (exactly_iff _ _).1 (by decide)⟩
+  · rintro vw (rfl | rfl | rfl) <;> exact ⟨(exactly_iff _ _).1 (by decide), (exactly_iff _ _).1 (by decide)⟩
+  · intro b; cases b <;> exact ⟨(exactly_iff _ _).1 (by decide), (exactly_iff _ _).1 (by decide)⟩
+
 theorem offsets_append (A B : List KAcc) (o : Nat) (w : Bool) :
     offsets (A ++ B) o w = offsets A o w ++ offsets B o w := by
   simp [offsets, List.filter_append, List.flatMap_append]
@@ -802,5 +823,54 @@ theorem matmul3K3_footprint (br : Branch) (K : Nat) :
 example : exactly (offsets (matmul3K3 .sse 5) 1 false) 15 = true := by decide
 
 end K3
+
+
+/-! ## footprints of the transpose / permute models (C14) and of the inverse leaf kernels (C10 model) -/
+
+/-- **`_transpose<T,M,N>`** (plain loop or register-blocked nest with its pack buffers, any configuration, element size
+    and block-size macros): nothing at or beyond `N*M` is written and every load — the vector loads of the packing
+    loop included — stays inside `a[0 .. M*N)` (restated from C14.transpose_correct_cfg) -/
+theorem transpose_footprint {α : Type} (cfg : Cfg) (sz nR nC : Nat) (hR : 0 < nR) (hC : 0 < nC)
+    (a m : Nat → α) (g1 g2 : Nat → Nat → Nat → α) (M N : Nat) :
+    (∀ p, N * M ≤ p → applyWrites (Transpose.transposeWrites cfg sz nR nC a g1 g2 M N) m p = m p) ∧
+    (∀ r ∈ Transpose.transposeReads cfg sz nR nC M N, r < M * N) :=
+  let h := C14.transpose_correct_cfg cfg sz nR nC hR hC a m g1 g2 M N
+  ⟨h.2.1, h.2.2⟩
+
+/-- **`permute<Index<p...>>`** (both standards, both loop skeletons): nothing at or beyond the size of the result is
+    written (restated from C14.permute_correct; every stored value is `a (flat dims i)` for a multi-index `i` of the
+    shape, i.e. an element of the operand) -/
+theorem permute_writes_in_result {α : Type} (s : Permute.Std) (v : Permute.Variant) (p dims : List Nat) (hne : dims ≠ [])
+    (hpos : ∀ d ∈ dims, 0 < d) (hp : p.Perm (List.range dims.length)) (a m : Nat → α) (pos : Nat)
+    (h : Permute.prod (Permute.newDims p dims) ≤ pos) :
+    applyWrites (Permute.movesWrites a (Permute.permuteMoves s v p dims)) m pos = m pos :=
+  (C14.permute_correct s v p dims hne hpos hp a m).2.2.1 pos h
+
+section InvLeaf
+variable {β : Type} [Zero β] [One β] [Add β] [Sub β] [Neg β] [Mul β] [Div β]
+
+/-- **`_inverse<T,n>`, `n ≤ 4`** (the generic scalar adjugate forms): the result depends on `src[0 .. n*n)` only — two
+    sources that agree there give the same inverse, so nothing outside the operand is read -/
+theorem inverse_leaf_reads_in_operand (n : Nat) (hn : 1 ≤ n ∧ n ≤ 4) (s s' : Nat → β)
+    (h : ∀ k, k < n * n → s k = s' k) : Inv.leafFlat n s = Inv.leafFlat n s' := by
+  obtain ⟨h1, h4⟩ := hn
+  have hcases : n = 1 ∨ n = 2 ∨ n = 3 ∨ n = 4 := by omega
+  rcases hcases with rfl | rfl | rfl | rfl
+  · have e0 := h 0 (by omega)
+    simp only [Inv.leafFlat]; unfold Inv.inv1; rw [e0]
+  · have e0 := h 0 (by omega); have e1 := h 1 (by omega); have e2 := h 2 (by omega); have e3 := h 3 (by omega)
+    simp only [Inv.leafFlat, Inv.inv2, e0, e1, e2, e3]
+  · have e0 := h 0 (by omega); have e1 := h 1 (by omega); have e2 := h 2 (by omega); have e3 := h 3 (by omega)
+    have e4 := h 4 (by omega); have e5 := h 5 (by omega); have e6 := h 6 (by omega); have e7 := h 7 (by omega)
+    have e8 := h 8 (by omega)
+    simp only [Inv.leafFlat, Inv.inv3, e0, e1, e2, e3, e4, e5, e6, e7, e8]
+  · have e0 := h 0 (by omega); have e1 := h 1 (by omega); have e2 := h 2 (by omega); have e3 := h 3 (by omega)
+    have e4 := h 4 (by omega); have e5 := h 5 (by omega); have e6 := h 6 (by omega); have e7 := h 7 (by omega)
+    have e8 := h 8 (by omega); have e9 := h 9 (by omega); have e10 := h 10 (by omega); have e11 := h 11 (by omega)
+    have e12 := h 12 (by omega); have e13 := h 13 (by omega); have e14 := h 14 (by omega); have e15 := h 15 (by omega)
+    simp only [Inv.leafFlat, Inv.inv4, Nat.reduceMul, Nat.reduceAdd, Nat.zero_add, e0, e1, e2, e3, e4, e5, e6, e7, e8, e9, e10, e11,
+      e12, e13, e14, e15]
+
+end InvLeaf
 
 end Fastor.C07
